@@ -52,6 +52,30 @@ def _term(v):
     return v.t
 
 
+def transport_limit(model) -> int:
+    """The number of bytes the peers read per datagram: every `recv(N)` / `recvfrom(N)` in shm/server.py and shm/client.py (N a literal
+    or a module-level integer constant of the api module). What lies beyond it never reaches the decoder."""
+    import ast
+
+    limits = []
+    for fname in ("server.py", "client.py"):
+        tree = ast.parse(open(os.path.join(os.path.dirname(API_PATH), fname)).read())
+        for node in ast.walk(tree):
+            if isinstance(node, ast.Call) and isinstance(node.func, ast.Attribute) and node.func.attr in ("recv", "recvfrom") and node.args:
+                a = node.args[0]
+                if isinstance(a, ast.Constant) and isinstance(a.value, int):
+                    limits.append(a.value)
+                elif isinstance(a, ast.Attribute) and a.attr in model.consts:
+                    limits.append(model.consts[a.attr])
+                elif isinstance(a, ast.Name) and a.id in model.consts:
+                    limits.append(model.consts[a.id])
+                else:
+                    raise Untranslatable(f"size argument of {ast.unparse(node)[:60]} in {fname}")
+    if not limits:
+        raise Untranslatable("no recv/recvfrom call found in shm/server.py, shm/client.py")
+    return min(limits)
+
+
 class ShmWire(Harness):
     name = "shm-wire-smt"
     engine = "E2-smt"
@@ -83,6 +107,12 @@ class ShmWire(Harness):
         except Untranslatable as u:
             hr.crashes.append({"fatal": f"untranslatable construct: {u}"})
             return hr
+        try:
+            ShmWire.limit = self.limit = transport_limit(model)
+        except Untranslatable as u:
+            hr.crashes.append({"fatal": f"untranslatable construct: {u}"})
+            return hr
+        hr.bounds["datagram_bytes_read_by_the_peers"] = self.limit
         queries = 0
         tsolve = 0.0
         obligations = []
@@ -196,6 +226,8 @@ class ShmWire(Harness):
         # (a) every value of the admitted domain is accepted by the encoder
         s = z3.Solver()
         s.add(*typing_, *domain)
+        s.add(*enc.defs)
+        s.add(z3.Length(wire.t) <= self.limit)  # the admitted domain: messages that fit the datagram the peers read
         s.add(z3.Not(z3.And(*enc_accept)) if enc_accept else z3.BoolVal(False))
         r = check(s)
         ob = {"kind": "domain-accepted", "class": cname, "result": r, "has_fields": has_fields}
@@ -216,9 +248,38 @@ class ShmWire(Harness):
         else:
             for fname, v in obj.fields.items():
                 same.append(v.t == back.fields[fname].t)
+        # (b0) nothing the encoder accepts is longer than what the peers read per datagram (recv(N) silently drops the rest)
+        # decided on the length abstraction: every Length(<string field>) becomes an integer variable (dropping the link to the
+        # string's contents only weakens the constraints, so unsat carries over; a model is turned into a message and replayed)
+        lens = {fname: z3.Int(f"len!{cname}.{fname}") for fname, v in obj.fields.items() if isinstance(v, VStr)}
+        subs = [(z3.Length(obj.fields[f].t), L) for f, L in lens.items()]
+        conj = z3.simplify(z3.And(*typing_, *enc.defs, *enc_accept, z3.Length(wire.t) > self.limit), som=False)
+        s = z3.Solver()
+        s.add(z3.substitute(conj, *subs) if subs else conj)
+        s.add(*[L >= 0 for L in lens.values()])
+        r = check(s)
+        ob = {"kind": "accepted-fits-the-datagram", "class": cname, "result": r, "has_fields": has_fields}
+        obligations.append(ob)
+        if r == "sat":
+            m = s.model()
+            kw = {}
+            for fname, v in obj.fields.items():
+                if isinstance(v, VStr):
+                    kw[fname] = "k" * m.eval(lens[fname], model_completion=True).as_long()
+                elif isinstance(v, VEnum):
+                    kw[fname] = list(getattr(api, v.enum))[0]
+                else:
+                    x = m.eval(v.t, model_completion=True).as_long()
+                    kw[fname] = x if 0 <= x <= SIZE_MAX else 1
+            msg = getattr(api, cname)(**kw)
+            ok, why = self.replay_roundtrip(api, msg)
+            ob["msg"] = repr(msg)[:120]
+            hr.failures.append(self._fail(f"{cname}-roundtrip", f"{repr(msg)[:120]}...: {why}", {"kind": "roundtrip", "class": cname, "fields": self._fields(msg)}, ok))
+        # (b) ... and what fits is decoded as the same message
         s = z3.Solver()
         s.add(*typing_)
         s.add(*enc.defs, *enc_accept)
+        s.add(z3.Length(wire.t) <= self.limit)
         s.add(z3.Not(z3.And(*(dec_accept + same))) if (dec_accept + same) else z3.BoolVal(False))
         r = check(s)
         ob = {"kind": "accepted-roundtrips", "class": cname, "result": r, "has_fields": has_fields}
@@ -331,7 +392,7 @@ class ShmWire(Harness):
             return []
         cls = getattr(api, cname)
         out = []
-        for sval, ival in [("é", 2**32), ("données", 2**63), ("a\u20acb", 2**64 - 1), ("\x7f", 2**64), ("ok", -1)]:
+        for sval, ival in [("é", 2**32), ("données", 2**63), ("a\u20acb", 2**64 - 1), ("\x7f", 2**64), ("ok", -1), ("k" * 1100, 5), ("k" * 1015, 5)]:
             kw = {}
             for fname, ann in fl:
                 kw[fname] = sval if ann == "str" else (ival if ann == "int" else list(getattr(api, ann))[0])
@@ -372,6 +433,7 @@ class ShmWire(Harness):
             b = api.ser(msg)
         except Exception as e:
             return False, f"encoder raises {type(e).__name__}"
+        b = b[: ShmWire.limit] if getattr(ShmWire, "limit", None) else b  # what recv(N) hands to the decoder
         try:
             back = api.deser(b)
         except Exception as e:
@@ -382,6 +444,8 @@ class ShmWire(Harness):
 
     def replay(self, rep):
         import cascade.shm.api as api
+
+        ShmWire.limit = transport_limit(ApiModel(API_PATH))
 
         cls = getattr(api, rep["class"])
         kw = dict(rep["fields"])
